@@ -60,4 +60,14 @@ def holdsDesc (e : Err) (key : Str) (obs : Option Str) : Verdict :=
   if !allSafe e || !safeKey key || junkKey e == some key then .unspec
   else if obs == innermost e key then .holds else .fails
 
+/-- **reported position ↔ reported content**: when an error names a plain A1 position, the sheet — read as
+it was given, whatever its orientation — holds exactly the reported content at that position
+(the content travels through `NewDesc`, which trims blanks and colons at both ends). -/
+def holdsErrPos (grid : List (List Str)) (pos cell : Str) : Verdict :=
+  match readA1 pos with
+  | none => .unspec                      -- a range `[B...D]4` or `?4` (column not found)
+  | some (r, c) =>
+    let actual := (grid.getD r []).getD c []
+    if Str.trim isTrimCut actual == cell then .holds else .fails
+
 end TableauVerif.Spec.C07
